@@ -50,3 +50,34 @@ Theorem c05_challenge : forall sha256 m rnd,
   st_verifier (oauth_start_pkce sha256 m rnd) = code_verifier rnd.
 Proof. exact start_challenge_matches. Qed.
 Print Assumptions c05_challenge.
+
+(* ---- the secrecy clause, in the symbolic (Dolev-Yao) reading of Model/Symbolic.v ----
+   Everything sent to the browser at a login start is the signed, encrypted CSRF cookie and the
+   authorization request (state = hash of the state nonce with the redirect, nonce = hash of the
+   OIDC nonce, code challenge per method).  Whoever sees all of it and can take pairs apart and
+   decrypt with any key it learns - but does not hold the cookie secret - learns none of the
+   secret atoms: not the raw nonces, not the cookie secret, and (unless the method is `plain`,
+   where the challenge IS the verifier) not the verifier. *)
+From V.Model Require Import Symbolic.
+From V.Proofs Require Import SymbolicProofs.
+
+Theorem c05_secrecy : forall m send_nonce n, m <> SPlain -> ~ analz (login_start_view m send_nonce) (TSecret n).
+Proof. exact login_start_secrecy. Qed.
+Print Assumptions c05_secrecy.
+
+Theorem c05_secrecy_plain : forall send_nonce n, n <> 3%nat -> ~ analz (login_start_view SPlain send_nonce) (TSecret n).
+Proof. exact login_start_secrecy_plain. Qed.
+Print Assumptions c05_secrecy_plain.
+
+(* the exclusion is necessary: with `plain` the verifier is disclosed *)
+Theorem c05_plain_discloses_verifier : forall send_nonce, analz (login_start_view SPlain send_nonce) a_verifier.
+Proof. exact plain_discloses_verifier. Qed.
+Print Assumptions c05_plain_discloses_verifier.
+
+(* the shape the correspondence compares with the real authorization request on every run *)
+Theorem c05_auth_request_shapes : forall send_nonce : bool,
+  let n := if send_nonce then 2%nat else 0%nat in
+  auth_request_shape SNone send_nonce = (2, n, 0)%nat /\ auth_request_shape SPlain send_nonce = (2, n, 1)%nat /\
+  auth_request_shape SS256 send_nonce = (2, n, 2)%nat.
+Proof. exact auth_request_shapes. Qed.
+Print Assumptions c05_auth_request_shapes.
